@@ -70,7 +70,8 @@ def one(ctx, core, shape, method, n, order, full_output):
         x = s.x_array(shape)
         holder['calls'] = s.fcalls
         # a first call with other arguments: the checked call must not see anything of it
-        d(x, DV({('arg-first-call', 0)}, 'f'), a=DV({('kw-first-call', 'a')}, 'f'))
+        xprev = Arr(x.shape, [DV({('x-first-call', c)}, 'f', 'any', sel={('x-first-call', c)}) for c in range(x.size)])
+        d(xprev, DV({('arg-first-call', 0)}, 'f'), a=DV({('kw-first-call', 'a')}, 'f'))
         del s.fcalls[:]
         res = d(x, marker, a=kwmarker)
         return res, list(s.fcalls)
